@@ -590,6 +590,10 @@ fn seen_keys(changes: &[(ChangeV1, ChangeSource, Instant)]) -> Vec<SeenKey> {
 /// published every time `handle_changes` is about to wait for the next event.
 #[cfg(corro_verif)]
 pub static VERIF_INGEST_STATE: std::sync::atomic::AtomicU64 = std::sync::atomic::AtomicU64::new(0);
+/// Verification hook: how many times `handle_changes` has come round to wait for an event (the
+/// interval's immediate first tick has been consumed once this is 2).
+#[cfg(corro_verif)]
+pub static VERIF_INGEST_LOOPS: std::sync::atomic::AtomicU64 = std::sync::atomic::AtomicU64::new(0);
 
 /// Bundle incoming changes to optimise transaction sizes with SQLite
 ///
@@ -674,6 +678,8 @@ pub async fn handle_changes(
             buf_cost -= tmp_cost;
         }
 
+        #[cfg(corro_verif)]
+        VERIF_INGEST_LOOPS.fetch_add(1, std::sync::atomic::Ordering::SeqCst);
         #[cfg(corro_verif)]
         VERIF_INGEST_STATE.store(
             (verif_received << 32) | ((queue.len() as u64 & 0xffff) << 16) | (join_set.len() as u64 & 0xffff),
